@@ -20,6 +20,10 @@ CLAIMED = {
    note='Reals not floats; log/exp uninterpreted with ground axiom instances; torch.distributions validation off (domain constraints instead); n and grid size bounded as stated in the evidence; soft (temperature) skygrid outside the claim.',
    technique='symbolic execution of torchtree tensor code (SymTensor) + SMT (z3/cvc5, QF_UFNRA) with solver-certified path-region coverage'),
 }
+CLAIMED['C18'] = dict(level='other', engine='crosshair', ref='DESIGN.md §4 C18',
+   text='CrossHair (z3) symbolically executes the real save_parameters against a modelled file system with a SYMBOLIC pre-state (each of name/.old/.new absent, complete or truncated, constrained by a representation invariant that CrossHair itself shows inductive), a symbolic crash index and a symbolic number of lost buffered chunks; post-conditions: a complete checkpoint remains and name is never truncated. One inductive step from an arbitrary valid state covers any number of consecutive interrupted writes. Counterexamples are replayed on a real temporary directory (single step and whole crash chain from a clean directory) before being reported. Bounded by the chunk count of the modelled json.dump and the per-condition time budget, hence "other" (bounded symbolic execution), not proof.',
+   note='File-system model (atomic rename, partial writes, buffered data lost on crash before close) validated against the real os/open on hundreds of concrete runs per check; json.dump modelled as K chunk writes; process crash, not power loss (no fsync modelling); first write into an empty directory outside the claim; safely=False / overwrite=True in-place modes are documented non-atomic and only checked for leaving siblings untouched.',
+   technique='CrossHair symbolic execution (z3) of the real save_parameters over a modelled file system: symbolic pre-state, crash point and lost-buffer count; inductive invariant; concrete replay on a real directory')
 NA_TABLE = {}
 NA_REASON = 'check not built yet in this round (planned in DESIGN.md §4); not claimed until its check exists'
 checks = []
